@@ -51,7 +51,9 @@ def select(prop, t, sd):
     pf = corpus.parts_family()
     px = corpus.product_family()
     if t == 'quick': px = px[sd % 5::5]        # a fifth per seed in the quick tier, all of them in the thorough tier
-    gs = cur + cov + nm + rec + pf + px + rnd
+    zp = corpus.zero_progress_family()
+    if t == 'quick': zp = zp[sd % 2::2]
+    gs = cur + cov + nm + rec + pf + px + zp + rnd
     if prop in ('C04', 'C05'):
         gs = [g for g in gs if not (g.features() & {'pred', 'assert'})]
     if prop == 'C08':
@@ -73,8 +75,9 @@ def run_parser_property(prop, evals=None, N=None, filt=None, level_text='', job=
     opts = dict(evals=evals or [prop], validate=40 if t == 'quick' else 400, seed=sd)
     # thorough tier: one token more for everything, two more for the curated micro-grammars
     def bound(g):
-        if t == 'thorough' and N == BOUNDS['thorough']: return N if g.meta.get('family') in ('curated', 'pratt') else N - 1
-        return N
+        d = g.meta.get('bound_delta', 0)
+        if t == 'thorough' and N == BOUNDS['thorough']: return (N if g.meta.get('family') in ('curated', 'pratt') else N - 1) + d
+        return N + d
     jobs = [(g, prop, bound(g), opts) for g in gs]
     results = []
     workers = int(os.environ.get('VERIF_JOBS', '16'))
@@ -139,7 +142,7 @@ def finish(prop, results, N, t, sd, t0, extra_cov=None, extra_viol=(), extra_inc
                     'earlier check of the same session on byte-identical MIR (content-addressed cache, see explored_paths / reused_paths)',
         transitions_executed_by_this_process=stats['steps'],
         bounds=dict(max_tokens=N, grammars=len(results), accepted=len(accepted), tier=t),
-        grammars=[dict(name=r['name'], family=r['family'], accepted=r['accepted'], reason=r['reason'], paths=r['paths'], wall_s=round(r['wall'], 2)) for r in results],
+        grammars=[dict(name=r['name'], family=r['family'], max_tokens=r.get('max_tokens'), accepted=r['accepted'], reason=r['reason'], paths=r['paths'], wall_s=round(r['wall'], 2)) for r in results],
         paths=paths, explored_paths=stats['explored_paths'], reused_paths=stats['reused_paths'],
         solver_queries=stats['queries'] + sum(r['prop_queries'] for r in results),
         solver_time_s=round(stats['solver_time'] + sum(r['prop_time'] for r in results), 3),
